@@ -171,8 +171,8 @@ def run_unit(template_path, repo_root, workdir, rlimit=60, extra_args=None, muta
     res.smt_ms = smt.get('smt-run', 0) + smt.get('smt-init', 0)
     for mod in smt.get('smt-run-module-times', []):
         for fb in mod.get('function-breakdown', []):
-            name = fb['function'].split('::')[-1]
             full = fb['function']
+            name = '::'.join(full.split('::')[1:])  # drop the crate (= unit) name
             ent = res.functions.setdefault(name, {'success': True, 'time_us': 0, 'rlimit': 0, 'mode': fb.get('mode:', ''), 'full': full})
             ent['success'] = ent['success'] and bool(fb.get('success'))
             ent['time_us'] += fb.get('time-micros', 0)
